@@ -10,6 +10,7 @@ import (
 // H264 (C10, C15, and the H264 instances of C08/C09).
 // opcodes: 1001 disableStapA [[mtu annexb]...]   one H264Payloader, a history of calls
 //          1002 isAVC [payloads...]               one H264Packet receiver
+//          1006 disableStapA isAVC [[mtu [[sc xnal]...]]...]  units -> Annex-B -> payloader -> H264Packet -> units (lossless clause)
 //          1004 isAVC [plan items...]             independent RFC 6184 encoder -> one H264Packet receiver
 
 // ---- generators -------------------------------------------------------------------------
@@ -205,16 +206,16 @@ func runH264UnmarshalSeq(avc bool, payloads [][]byte) Outcome {
 }
 
 // oracle for C10: payloader output of well-shaped access units, fed to H264Packet, reproduces the units
-func checkH264Lossless(disable, avc bool, mtu int, calls [][][]byte, c *RNG) (cases []Tok, fail string, known string) {
+// (AUD and filler dropped; SPS and PPS held until the next other unit and then sent first), every
+// payload is a single NAL unit, a STAP-A or an FU-A fragment, and IsPartitionHead is the S bit on FU-A.
+func h264LosslessOracle(disable, avc bool, mtus []int, streams [][]byte, nalsPerCall [][][]byte) string {
 	p := &codecs.H264Payloader{DisableStapA: disable}
 	d := &codecs.H264Packet{IsAVC: avc}
 	var got []byte
 	var expect [][]byte
 	var pendingSPS, pendingPPS []byte
-	for _, nals := range calls {
-		in := annexB(c, nals)
-		cases = append(cases, TList{TI(int64(mtu)), TBytes(in)})
-		frags := p.Payload(uint16(mtu), in)
+	for ci, nals := range nalsPerCall {
+		frags := p.Payload(uint16(mtus[ci]), append([]byte{}, streams[ci]...))
 		for _, n := range nals {
 			t := n[0] & 0x1F
 			switch {
@@ -231,44 +232,96 @@ func checkH264Lossless(disable, avc bool, mtu int, calls [][][]byte, c *RNG) (ca
 				expect = append(expect, n)
 			}
 		}
-		unitStart := true
 		for fi, f := range frags {
 			out, err := d.Unmarshal(f)
 			if err != nil {
-				return cases, fmt.Sprintf("payload %d rejected by H264Packet: %v", fi, err), ""
+				return fmt.Sprintf("call %d: payload %d rejected by H264Packet: %v", ci, fi, err)
 			}
 			got = append(got, out...)
-			// shape
 			t := f[0] & 0x1F
-			isFU := t == 28
 			head := d.IsPartitionHead(f)
 			switch {
 			case t >= 1 && t <= 23, t == 24:
 				if !head {
-					return cases, "IsPartitionHead false on a single/STAP-A payload", ""
+					return "IsPartitionHead false on a single/STAP-A payload"
 				}
-				unitStart = true
-			case isFU:
+			case t == 28:
 				s, e := f[1]&0x80 != 0, f[1]&0x40 != 0
-				if s != unitStart && !(s && unitStart) {
-					// S must be exactly on the first fragment of a unit
-				}
 				if head != s {
-					return cases, "IsPartitionHead differs from the S bit on a FU-A payload", ""
+					return "IsPartitionHead differs from the S bit on a FU-A payload"
 				}
 				if s && e {
-					return cases, "FU-A fragment with both S and E", ""
+					return "FU-A fragment with both S and E"
 				}
-				unitStart = e
 			default:
-				return cases, fmt.Sprintf("payload type %d emitted", t), ""
+				return fmt.Sprintf("payload type %d emitted", t)
 			}
 		}
 	}
 	if !bytes.Equal(got, frameAs(avc, expect)) {
-		return cases, "depacketized stream differs from the NAL units that were payloaded", ""
+		return "depacketized stream differs from the NAL units that were payloaded"
 	}
-	return cases, "", ""
+	return ""
+}
+
+// op 1006: disable avc [[mtu [[sc xnal]...]]...] - the lossless clause, self-describing
+func unitStreams(calls []Tok) (streams [][]byte, mtus []int, nalsPerCall [][][]byte) {
+	for _, c := range calls {
+		l := tokList(c)
+		var in []byte
+		var nals [][]byte
+		for _, u := range tokList(l[1]) {
+			ul := tokList(u)
+			if tokInt(ul[0]) == 3 {
+				in = append(in, 0, 0, 1)
+			} else {
+				in = append(in, 0, 0, 0, 1)
+			}
+			n := tokBytes(ul[1])
+			in = append(in, n...)
+			nals = append(nals, n)
+		}
+		streams = append(streams, in)
+		mtus = append(mtus, int(tokInt(l[0])))
+		nalsPerCall = append(nalsPerCall, nals)
+	}
+	return
+}
+
+func unitCallsTok(c *RNG, mtu int, calls [][][]byte) TList {
+	cs := TList{}
+	for _, nals := range calls {
+		us := TList{}
+		for _, n := range nals {
+			us = append(us, TList{TI(int64(c.Pick(3, 4))), TBytes(n)})
+		}
+		cs = append(cs, TList{TI(int64(mtu)), us})
+	}
+	return cs
+}
+
+func runH264Lossless(disable, avc bool, calls []Tok) Outcome {
+	streams, mtus, nalsPerCall := unitStreams(calls)
+	hist := TList{}
+	for i := range streams {
+		hist = append(hist, TList{TI(int64(mtus[i])), TBytes(streams[i])})
+	}
+	o := runH264History(disable, hist)
+	p := &codecs.H264Payloader{DisableStapA: disable}
+	var frags [][]byte
+	for i := range streams {
+		frags = append(frags, p.Payload(uint16(mtus[i]), append([]byte{}, streams[i]...))...)
+	}
+	seq := runH264UnmarshalSeq(avc, frags)
+	o.Impl = L(o.Impl, seq.Impl)
+	o.Nontrivial = o.Nontrivial || seq.Nontrivial
+	if o.Fail == "" {
+		o.Fail = seq.Fail
+	}
+	if o.Fail == "" {
+		o.Fail = h264LosslessOracle(disable, avc, mtus, streams, nalsPerCall)
+	}
+	return o
 }
 
 // emitH264Extremes: sizes at which narrow integer arithmetic would wrap - a unit cut into more than
@@ -276,12 +329,7 @@ func checkH264Lossless(disable, avc bool, mtu int, calls [][][]byte, c *RNG) (ca
 // The payloader output is also fed to H264Packet (op 1002) and compared with the units.
 func emitH264Extremes(c *RNG, emit func(op int, toks ...Tok)) {
 	run := func(disable bool, mtu int, nals [][]byte) {
-		cs, fail, known := checkH264Lossless(disable, c.Bool(), mtu, [][][]byte{nals}, c.Fork(uint64(mtu)))
-		line := CaseLine(1001, TI(b2i(disable)), TList(cs))
-		if fail != "" {
-			pendingFailures = append(pendingFailures, pendingFailure{line, fail, known})
-		}
-		emit(1001, TI(b2i(disable)), TList(cs))
+		emit(1006, TI(b2i(disable)), TI(b2i(c.Bool())), unitCallsTok(c, mtu, [][][]byte{nals}))
 	}
 	run(false, 3, [][]byte{genH264Nal(c, 5, 2+257)})
 	run(false, 4, [][]byte{genH264Nal(c, 1, 2+2*520)})
@@ -406,6 +454,8 @@ func runRfc6184Plan(avc bool, plan []Tok) Outcome {
 func init() {
 	run := func(op int, toks []Tok) Outcome {
 		switch op {
+		case 1006:
+			return runH264Lossless(tokInt(toks[0]) != 0, tokInt(toks[1]) != 0, tokList(toks[2]))
 		case 1004:
 			return runRfc6184Plan(tokInt(toks[0]) != 0, tokList(toks[1]))
 		case 1005: // isAVC nhist [payloads]: history then an intact frame (C15)
@@ -463,21 +513,19 @@ func init() {
 				for j := 0; j < ncalls; j++ {
 					calls = append(calls, genAccessUnit(c, mtu))
 				}
-				cs, fail, known := checkH264Lossless(disable, avc, mtu, calls, c.Fork(99))
-				if fail != "" {
-					pendingFailures = append(pendingFailures, pendingFailure{CaseLine(1001, TI(b2i(disable)), TList(cs)), fail, known})
-				}
-				emit(1001, TI(b2i(disable)), TList(cs))
-				// the same stream through payloader + depacketizer, as one correspondence case
-				_ = fail
+				cs := unitCallsTok(c.Fork(99), mtu, calls)
+				emit(1006, TI(b2i(disable)), TI(b2i(avc)), cs)
+				// the raw streams as a payloader history and the packets as a receiver sequence, too
+				streams, mtus, _ := unitStreams(cs)
 				p := &codecs.H264Payloader{DisableStapA: disable}
-				ps := TList{}
-				for _, t := range cs {
-					l := tokList(t)
-					for _, f := range p.Payload(uint16(tokInt(l[0])), tokBytes(l[1])) {
+				hist, ps := TList{}, TList{}
+				for k := range streams {
+					hist = append(hist, TList{TI(int64(mtus[k])), TBytes(streams[k])})
+					for _, f := range p.Payload(uint16(mtus[k]), append([]byte{}, streams[k]...)) {
 						ps = append(ps, TBytes(f))
 					}
 				}
+				emit(1001, TI(b2i(disable)), hist)
 				emit(1002, TI(b2i(avc)), ps)
 				// decoder clause: a plan for the independent RFC 6184 encoder
 				emit(1004, TI(b2i(c.Bool())), genRfc6184Plan(c.Fork(5)))
@@ -486,13 +534,3 @@ func init() {
 		Run: run,
 	})
 }
-
-// failures found by generator-side oracles (they need the abstract description, which the case
-// line does not carry); main attaches them to the matching case.
-type pendingFailure struct {
-	line  string
-	why   string
-	known string
-}
-
-var pendingFailures []pendingFailure
